@@ -36,6 +36,15 @@ class AuthBench:
             if as_int != il:
                 chk.violation(f"require_user_verification={p2.require_uv} gives another outcome than {pol.require_uv} ({label}): {as_int[:50]} instead of {il[:50]}",
                               f"policy-as-int auth {label.split('+')[0]}", dict(rp, policy_as_int={"require_user_verification": p2.require_uv}, outcome_as_int=as_int))
+        # a policy switch that has its documented default may as well be left out of the call
+        if pol.require_uv is False:
+            import webauthn as _w
+            kw = pol.kwargs()
+            kw.pop("require_user_verification")
+            omitted = impl.outcome(lambda: _w.verify_authentication_response(credential=val, **kw), impl.pr_verified_auth)
+            if omitted != il:
+                chk.violation(f"leaving require_user_verification out (default False) gives another outcome than passing False ({label}): {omitted[:50]} instead of {il[:50]}",
+                              f"policy-omitted auth {label.split('+')[0]}", dict(rp, omitted=["require_user_verification"], outcome_when_omitted=omitted))
         if replay_extra:
             rp.update(replay_extra)
         if self.R:
